@@ -31,3 +31,4 @@ func verifThorough() bool                          { panic("verif intrinsic") }
 func verifConfig(key string, val int)              { panic("verif intrinsic") }
 func verifIdealHash()                              { panic("verif intrinsic") }
 func verifNote(label string, v any)                { panic("verif intrinsic") }
+func verifSymQty64(name string) int64               { panic("verif intrinsic") }
